@@ -240,6 +240,17 @@ func applyInt64Constraints(constraints *validate.FieldRules, schema *base.Schema
 }
 
 // applyFloatConstraints applies float validation constraints to the schema.
+// float32SchemaNumber returns the number a float32 bound denotes in JSON: proto3 JSON writes
+// a float field with the shortest decimal text that round-trips as float32 (0.1), not with the
+// widened double (0.10000000149011612), so bounds are published in the same form.
+func float32SchemaNumber(v float32) float64 {
+	n, err := strconv.ParseFloat(strconv.FormatFloat(float64(v), 'g', -1, 32), 64)
+	if err != nil {
+		return float64(v)
+	}
+	return n
+}
+
 func applyFloatConstraints(constraints *validate.FieldRules, schema *base.Schema) {
 	floatConstraints := constraints.GetFloat()
 	if floatConstraints == nil {
@@ -248,25 +259,25 @@ func applyFloatConstraints(constraints *validate.FieldRules, schema *base.Schema
 
 	// Greater than or equal (minimum)
 	if floatConstraints.HasGte() {
-		minValue := float64(floatConstraints.GetGte())
+		minValue := float32SchemaNumber(floatConstraints.GetGte())
 		schema.Minimum = &minValue
 	}
 
 	// Greater than (exclusive minimum)
 	if floatConstraints.HasGt() {
-		minValue := float64(floatConstraints.GetGt())
+		minValue := float32SchemaNumber(floatConstraints.GetGt())
 		schema.ExclusiveMinimum = &base.DynamicValue[bool, float64]{N: 1, B: minValue}
 	}
 
 	// Less than or equal (maximum)
 	if floatConstraints.HasLte() {
-		maxValue := float64(floatConstraints.GetLte())
+		maxValue := float32SchemaNumber(floatConstraints.GetLte())
 		schema.Maximum = &maxValue
 	}
 
 	// Less than (exclusive maximum)
 	if floatConstraints.HasLt() {
-		maxValue := float64(floatConstraints.GetLt())
+		maxValue := float32SchemaNumber(floatConstraints.GetLt())
 		schema.ExclusiveMaximum = &base.DynamicValue[bool, float64]{N: 1, B: maxValue}
 	}
 
